@@ -110,6 +110,20 @@ Section Base.
       rewrite !firstn_firstn. f_equal. f_equal; f_equal; lia.
     - simpl (b_results (mk_base _ _)). rewrite firstn_length. lia.
   Qed.
+
+  (* the invariant |generators| = |results| + 1: holds initially, kept by add and by rollback *)
+  Definition gens_inv (b : base R) : Prop := length (b_gens b) = S (length (b_results b)).
+  Lemma gens_inv_all :
+    (forall g, gens_inv (base_init g)) /\
+    (forall b r g, gens_inv b -> gens_inv (base_add b r g)) /\
+    (forall b k b1, gens_inv b -> base_rollback b k = Ok b1 -> gens_inv b1).
+  Proof.
+    unfold gens_inv. split; [reflexivity|]. split.
+    - intros b r g H. unfold base_add. cbn [b_gens b_results]. rewrite !app_length, H. cbn. lia.
+    - intros b k b1 H Hr. apply base_rollback_results in Hr as (-> & _ & Hle).
+      remember (S (N.to_nat k)) as n1 eqn:En1. simpl (b_results (mk_base _ _)). simpl (b_gens (mk_base _ _)).
+      rewrite !firstn_length. lia.
+  Qed.
 End Base.
 
 Lemma firstn_pos_nonempty {A} (l : list A) p : firstn (N.to_nat (N.pos p)) l = [] -> l = [].
@@ -439,80 +453,154 @@ Section Kinds.
     apply out_eqv_Ok in Hall as (c2 & ls2 & E & He & Hl). exists c2, ls2.
     split; [exact E|]. split; [exact He|]. split; [exact Hl|]. symmetry. apply mchk_eqv_ser. exact He.
   Qed.
+
+  (** ** the statements as the property words them *)
+  Lemma c15_plain_rollback d cb cs (c0 : pchk K) idx c idx' ls :
+    plain_run strm ps f d cb cs c0 idx = Ok (c, idx', ls) ->
+    length (b_gens c0) = S (length (b_results c0)) ->
+    forall j, j <= length ls ->
+    exists ck idxj,
+      base_rollback c (N.of_nat (length (b_results c0) + j)) = Ok ck /\
+      ck = nth j (chks _ _ c0 ls) c0 /\
+      plain_run strm ps f d cb (firstn j cs) c0 idx = Ok (ck, idxj, firstn j ls) /\
+      ser_pchk digits10 ck = ser_pchk digits10 (nth j (chks _ _ c0 ls) c0).
+  Proof.
+    intros H Hg j Hj. destruct (c15_plain_spec d cb cs c0 idx c idx' ls H Hg j Hj) as (Hrb & idxj & Hpre & _).
+    eexists _, idxj. split; [exact Hrb|]. split; [reflexivity|]. split; [exact Hpre|reflexivity].
+  Qed.
+
+  Lemma c15_plain_resume d cb cs (c0 : pchk K) idx c idx' ls :
+    plain_run strm ps f d cb cs c0 idx = Ok (c, idx', ls) ->
+    length (b_gens c0) = S (length (b_results c0)) ->
+    forall j, j <= length ls -> (j < length ls \/ length ls = length cs) ->
+    exists ck idxj,
+      base_rollback c (N.of_nat (length (b_results c0) + j)) = Ok ck /\
+      plain_run strm ps f d cb (firstn j cs) c0 idx = Ok (ck, idxj, firstn j ls) /\
+      plain_run strm ps f d cb (skipn j cs) ck idxj = Ok (c, idx', skipn j ls).
+  Proof.
+    intros H Hg j Hj Hc. destruct (c15_plain_spec d cb cs c0 idx c idx' ls H Hg j Hj) as (Hrb & idxj & Hpre & Hsuf).
+    eexists _, idxj. split; [exact Hrb|]. split; [exact Hpre|exact (Hsuf Hc)].
+  Qed.
+
+  Lemma c15_vegas_rollback d cb cs (c0 : vchk K) idx c idx' ls :
+    vegas_run L strm ps f d cb cs c0 idx = Ok (c, idx', ls) ->
+    length (b_gens (vc_base c0)) = S (length (b_results (vc_base c0))) ->
+    forall j, j <= length ls ->
+    exists ck idxj t,
+      vchk_rollback c (N.of_nat (length (b_results (vc_base c0)) + j)) = Ok ck /\
+      ck = nth j (chks _ _ (vchk_dimensions c0 d) ls) (vchk_dimensions c0 d) /\
+      vegas_run L strm ps f d cb (firstn j cs) c0 idx = Ok (ck, idxj, firstn j ls) /\
+      ser_vchk digits10 ck = Ok t /\
+      ser_vchk digits10 (nth j (chks _ _ (vchk_dimensions c0 d) ls) (vchk_dimensions c0 d)) = Ok t.
+  Proof.
+    intros H Hg j Hj. destruct (c15_vegas_spec d cb cs c0 idx c idx' ls H Hg j Hj) as (Hrb & idxj & Hpre & _).
+    assert (Ht : vchk_textual (nth j (chks _ _ (vchk_dimensions c0 d) ls) (vchk_dimensions c0 d))).
+    { eapply vegas_chks_textual; [exact H|apply nth_chks_In; exact Hj]. }
+    apply (ser_vchk_defined digits10) in Ht as (t & Ht).
+    eexists _, idxj, t. split; [exact Hrb|]. split; [reflexivity|]. split; [exact Hpre|]. split; exact Ht.
+  Qed.
+
+  Lemma c15_vegas_resume d cb cs (c0 : vchk K) idx c idx' ls :
+    vegas_run L strm ps f d cb cs c0 idx = Ok (c, idx', ls) ->
+    length (b_gens (vc_base c0)) = S (length (b_results (vc_base c0))) ->
+    forall j, j <= length ls -> (j < length ls \/ length ls = length cs) ->
+    exists ck idxj,
+      vchk_rollback c (N.of_nat (length (b_results (vc_base c0)) + j)) = Ok ck /\
+      vegas_run L strm ps f d cb (firstn j cs) c0 idx = Ok (ck, idxj, firstn j ls) /\
+      vegas_run L strm ps f d cb (skipn j cs) ck idxj = Ok (c, idx', skipn j ls).
+  Proof.
+    intros H Hg j Hj Hc. destruct (c15_vegas_spec d cb cs c0 idx c idx' ls H Hg j Hj) as (Hrb & idxj & Hpre & Hsuf).
+    eexists _, idxj. split; [exact Hrb|]. split; [exact Hpre|exact (Hsuf Hc)].
+  Qed.
+
+  Lemma c15_mc_rollback d n cb cs (c0 : mchk K) idx c idx' ls :
+    mc_run L strm ps f mp d n cb cs c0 idx = Ok (c, idx', ls) ->
+    length (b_gens (mc_base c0)) = S (length (b_results (mc_base c0))) ->
+    forall j, j <= length ls ->
+    exists ck idxj,
+      mchk_rollback c (N.of_nat (length (b_results (mc_base c0)) + j)) = Ok ck /\
+      ck = nth j (chks _ _ (mchk_channels c0 n) ls) (mchk_channels c0 n) /\
+      mc_run L strm ps f mp d n cb (firstn j cs) c0 idx = Ok (ck, idxj, firstn j ls) /\
+      ser_mchk digits10 ck = ser_mchk digits10 (nth j (chks _ _ (mchk_channels c0 n) ls) (mchk_channels c0 n)).
+  Proof.
+    intros H Hg j Hj. destruct (c15_mc_spec d n cb cs c0 idx c idx' ls H Hg j Hj) as (Hrb & idxj & Hpre & _).
+    eexists _, idxj. split; [exact Hrb|]. split; [reflexivity|]. split; [exact Hpre|reflexivity].
+  Qed.
+
+  Lemma c15_mc_resume d n cb cs (c0 : mchk K) idx c idx' ls :
+    mc_run L strm ps f mp d n cb cs c0 idx = Ok (c, idx', ls) ->
+    length (b_gens (mc_base c0)) = S (length (b_results (mc_base c0))) ->
+    forall j, j <= length ls -> (j < length ls \/ length ls = length cs) ->
+    exists ck idxj,
+      mchk_rollback c (N.of_nat (length (b_results (mc_base c0)) + j)) = Ok ck /\
+      mc_run L strm ps f mp d n cb (firstn j cs) c0 idx = Ok (ck, idxj, firstn j ls) /\
+      mc_run L strm ps f mp d n cb (skipn j cs) ck idxj = Ok (c, idx', skipn j ls).
+  Proof.
+    intros H Hg j Hj Hc. destruct (c15_mc_spec d n cb cs c0 idx c idx' ls H Hg j Hj) as (Hrb & idxj & Hpre & Hsuf).
+    eexists _, idxj. split; [exact Hrb|]. split; [exact Hpre|exact (Hsuf Hc)].
+  Qed.
+
+  (* the three kinds together *)
+  Lemma c15_rejects :
+    (forall (R : Type) (b : base R) k, (N.of_nat (length (b_results b)) < k)%N -> base_rollback b k = UB 41) /\
+    (forall (c : vchk K) k, (N.of_nat (length (b_results (vc_base c))) < k)%N -> vchk_rollback c k = UB 41) /\
+    (forall (c : mchk K) k, (N.of_nat (length (b_results (mc_base c))) < k)%N -> mchk_rollback c k = UB 41).
+  Proof. split; [intros R; apply base_rollback_rejects|]. split; [apply vchk_rollback_rejects|apply mchk_rollback_rejects]. Qed.
+
+  Lemma c15_n_id :
+    (forall (R : Type) (b : base R), length (b_gens b) = S (length (b_results b)) ->
+       base_rollback b (N.of_nat (length (b_results b))) = Ok b) /\
+    (forall c : vchk K, length (b_gens (vc_base c)) = S (length (b_results (vc_base c))) ->
+       vchk_rollback c (N.of_nat (length (b_results (vc_base c)))) = Ok c) /\
+    (forall c : mchk K, length (b_gens (mc_base c)) = S (length (b_results (mc_base c))) ->
+       mchk_rollback c (N.of_nat (length (b_results (mc_base c)))) = Ok c).
+  Proof. split; [intros R; apply base_rollback_n|]. split; [apply vchk_rollback_n|apply mchk_rollback_n]. Qed.
+
+  Lemma c15_rollback_rollback :
+    (forall (R : Type) (b b1 : base R) k1 k2, (k2 <= k1)%N -> base_rollback b k1 = Ok b1 ->
+       base_rollback b1 k2 = base_rollback b k2) /\
+    (forall (c c1 : vchk K) k1 k2, (k2 <= k1)%N -> vchk_rollback c k1 = Ok c1 -> vchk_rollback c1 k2 = vchk_rollback c k2) /\
+    (forall (c c1 : mchk K) k1 k2, (k2 <= k1)%N -> mchk_rollback c k1 = Ok c1 -> mchk_rollback c1 k2 = mchk_rollback c k2).
+  Proof.
+    split; [intros R; apply base_rollback_rollback|]. split; [apply vchk_rollback_rollback|apply mchk_rollback_rollback].
+  Qed.
+
+  Lemma c15_rollback_text :
+    (forall (c c' : vchk K) k, vchk_eqv c c' -> res_rel vchk_eqv (vchk_rollback c k) (vchk_rollback c' k)) /\
+    (forall (c c' : mchk K) k, mchk_eqv c c' -> res_rel mchk_eqv (mchk_rollback c k) (mchk_rollback c' k)).
+  Proof. split; [apply vchk_rollback_eqv|apply mchk_rollback_eqv]. Qed.
 End Kinds.
 
 (* ================================================================================================ *)
-(** * non-vacuity: real runs in double precision (3 VEGAS iterations from Lemmas_C19, 2 PLAIN iterations
-    from Lemmas_C12, 3 multi-channel iterations with two channels); every checkpoint shown to the
-    callback is well formed, so all hypotheses of the theorems hold for them *)
+(** * non-vacuity: the example runs defined at the end of Lemmas_C03.v *)
 From HepMC Require Import NumB Lemmas_C12.
 
-Definition ex15_vegas_c0 : vchk B64 := vchk_default 4 (one B64) 0.
-Definition ex15_vegas_check : bool :=
-  match ex19_run with
-  | Ok (c, _, ls) => Nat.eqb (length ls) 3 && forallb wf_vchk (chks _ _ (vchk_dimensions ex15_vegas_c0 1) ls)
-  | UB _ => false
-  end.
-Lemma ex15_vegas_check_ok : ex15_vegas_check = true.
-Proof. vm_compute. reflexivity. Qed.
-
-Lemma ex15_vegas : exists c idx' ls,
-  vegas_run ex19_L ex19_strm [] ex19_f 1 (fun _ => true) [8; 8; 8]%N ex15_vegas_c0 0 = Ok (c, idx', ls) /\
-  length ls = 3 /\ length (b_gens (vc_base ex15_vegas_c0)) = S (length (b_results (vc_base ex15_vegas_c0))) /\
-  (forall x, In x (chks _ _ (vchk_dimensions ex15_vegas_c0 1) ls) -> wf_vchk x = true).
+(* the theorems applied to the VEGAS run: rolling the 3-iteration checkpoint back to 1 gives the checkpoint
+   of the 1-iteration run, and the two remaining iterations run from it reproduce the original ones;
+   the same (up to the text) after writing the 3-iteration checkpoint to text and reading it back *)
+Lemma ex15_vegas_use : exists c idx' ls ck idx1,
+  vegas_run ex19_L ex19_strm [] ex19_f 1 (fun _ => true) [8; 8; 8]%N exr_vegas_c0 0 = Ok (c, idx', ls) /\
+  vchk_rollback c 1 = Ok ck /\
+  vegas_run ex19_L ex19_strm [] ex19_f 1 (fun _ => true) [8]%N exr_vegas_c0 0 = Ok (ck, idx1, firstn 1 ls) /\
+  vegas_run ex19_L ex19_strm [] ex19_f 1 (fun _ => true) [8; 8]%N ck idx1 = Ok (c, idx', skipn 1 ls).
 Proof.
-  pose proof ex15_vegas_check_ok as H. unfold ex15_vegas_check in H. change ex19_run with
-    (vegas_run ex19_L ex19_strm [] ex19_f 1 (fun _ => true) [8; 8; 8]%N ex15_vegas_c0 0) in H. revert H.
-  destruct (vegas_run ex19_L ex19_strm [] ex19_f 1 (fun _ => true) [8; 8; 8]%N ex15_vegas_c0 0) as [[[c i] ls]|e];
-    intros H; [|discriminate].
-  exists c, i, ls. split; [reflexivity|]. apply andb_true_iff in H as [H1 H2].
-  split; [apply Nat.eqb_eq; exact H1|]. split; [reflexivity|]. rewrite forallb_forall in H2. exact H2.
+  destruct exr_vegas as (c & i & ls & H & Hl & Hg & _).
+  destruct (c15_vegas_resume ex19_L ex19_strm [] ex19_f 1 _ _ _ _ _ _ _ H Hg 1) as (ck & idx1 & A & B & C);
+    [lia|left; lia|].
+  exists c, i, ls, ck, idx1. split; [exact H|]. split; [exact A|]. split; [exact B|exact C].
 Qed.
 
-Definition ex15_plain_c0 : pchk B64 := base_init 0%N.
-Definition ex15_plain_check : bool :=
-  match ex_run with
-  | Ok (c, _, ls) => Nat.eqb (length ls) 2 && forallb wf_pchk (chks _ _ ex15_plain_c0 ls)
-  | UB _ => false
-  end.
-Lemma ex15_plain_check_ok : ex15_plain_check = true.
-Proof. vm_compute. reflexivity. Qed.
-
-Lemma ex15_plain : exists c idx' ls,
-  plain_run ex_strm [] ex_f 1 (cb_plain (zero B64)) [3; 3]%N ex15_plain_c0 0 = Ok (c, idx', ls) /\
-  length ls = 2 /\ length (b_gens ex15_plain_c0) = S (length (b_results ex15_plain_c0)) /\
-  (forall x, In x (chks _ _ ex15_plain_c0 ls) -> wf_pchk x = true).
+Lemma ex15_vegas_reload_use : exists c idx' ls c_re ck c2 idx1 ls2,
+  vegas_run ex19_L ex19_strm [] ex19_f 1 (fun _ => true) [8; 8; 8]%N exr_vegas_c0 0 = Ok (c, idx', ls) /\
+  vchk_reload "17" c = Ok c_re /\ vchk_rollback c_re 1 = Ok ck /\
+  vegas_run ex19_L ex19_strm [] ex19_f 1 (fun _ => true) [8; 8]%N ck idx1 = Ok (c2, idx', ls2) /\
+  ser_vchk "17" c2 = ser_vchk "17" c.
 Proof.
-  pose proof ex15_plain_check_ok as H. unfold ex15_plain_check in H. change ex_run with
-    (plain_run ex_strm [] ex_f 1 (cb_plain (zero B64)) [3; 3]%N ex15_plain_c0 0) in H. revert H.
-  destruct (plain_run ex_strm [] ex_f 1 (cb_plain (zero B64)) [3; 3]%N ex15_plain_c0 0) as [[[c i] ls]|e];
-    intros H; [|discriminate].
-  exists c, i, ls. split; [reflexivity|]. apply andb_true_iff in H as [H1 H2].
-  split; [apply Nat.eqb_eq; exact H1|]. split; [reflexivity|]. rewrite forallb_forall in H2. exact H2.
-Qed.
-
-(* two channels with identical unit densities; coordinates = the random numbers *)
-Definition ex15_mp : mcmap B64 :=
-  mk_mcmap (fun _ _ us _ => us) (fun _ _ _ _ _ => (one B64, [one B64; one B64])).
-Definition ex15_mc_c0 : mchk B64 := mchk_default (zero B64) (one B64) 0.
-Definition ex15_mc_run :=
-  mc_run ex19_L ex19_strm [] ex19_f ex15_mp 1 2 (fun _ => true) [4; 4; 4]%N ex15_mc_c0 0.
-Definition ex15_mc_check : bool :=
-  match ex15_mc_run with
-  | Ok (c, _, ls) => Nat.eqb (length ls) 3 && forallb wf_mchk (chks _ _ (mchk_channels ex15_mc_c0 2) ls)
-  | UB _ => false
-  end.
-Lemma ex15_mc_check_ok : ex15_mc_check = true.
-Proof. vm_compute. reflexivity. Qed.
-
-Lemma ex15_mc : exists c idx' ls,
-  mc_run ex19_L ex19_strm [] ex19_f ex15_mp 1 2 (fun _ => true) [4; 4; 4]%N ex15_mc_c0 0 = Ok (c, idx', ls) /\
-  length ls = 3 /\ length (b_gens (mc_base ex15_mc_c0)) = S (length (b_results (mc_base ex15_mc_c0))) /\
-  (forall x, In x (chks _ _ (mchk_channels ex15_mc_c0 2) ls) -> wf_mchk x = true).
-Proof.
-  pose proof ex15_mc_check_ok as H. unfold ex15_mc_check, ex15_mc_run in H. revert H.
-  destruct (mc_run ex19_L ex19_strm [] ex19_f ex15_mp 1 2 (fun _ => true) [4; 4; 4]%N ex15_mc_c0 0) as [[[c i] ls]|e];
-    intros H; [|discriminate].
-  exists c, i, ls. split; [reflexivity|]. apply andb_true_iff in H as [H1 H2].
-  split; [apply Nat.eqb_eq; exact H1|]. split; [reflexivity|]. rewrite forallb_forall in H2. exact H2.
+  destruct exr_vegas as (c & i & ls & H & Hl & Hg & Hwf).
+  assert (Hwfc : wf_vchk c = true).
+  { apply Hwf. eapply vegas_final_In. exact H. }
+  destruct (c15_vegas_after_reload ex19_L ex19_strm [] ex19_f "17" 1 (fun _ => true) _ _ _ _ _ _
+              (fun _ _ _ => eq_refl) H Hg Hwfc 1) as (c_re & ck & A & B & _ & _ & _ & idx1 & _ & D); [lia|].
+  destruct D as (c2 & ls2 & D1 & _ & _ & D2); [left; lia|].
+  exists c, i, ls, c_re, ck, c2, idx1, ls2. split; [exact H|]. split; [exact A|]. split; [exact B|]. split; [exact D1|exact D2].
 Qed.
